@@ -28,6 +28,7 @@ var c07Tris = []string{"timestampsFullPrecision", "pageArith", "limitZeroAll", "
 	"addGuardCreated", "addGuardUpdated", "addGuardExpire", "addGuardValueType",
 	"updRefreshCreated", "updRefreshUpdated", "updRefreshValue", "updRefreshExpireOnFlag",
 	"typeChangeDetected", "valueShared", "flagsSticky", "setVoidClearsTyped", "initialisedAfterFill",
+	"refileGuardExpire", "patchExpiredReindexesAll", "claimPathsStandard",
 	"getBeaconServesAllValueTypes", "getBeaconBuildsRequestedType"}
 
 func c07Run(fs *Facts) {
@@ -58,6 +59,7 @@ func c07Run(fs *Facts) {
 		c07GetBeacon(fs, f)
 		c07BuildOrder(fs, f)
 	}
+	c07Claim(fs)
 	if f, err := Load("app/server/gateway/gateway.go"); err != nil {
 		fs.Err("%v", err)
 	} else {
@@ -448,8 +450,18 @@ func c07Save(fs *Facts, f *File) {
 		return
 	}
 	second, ok := first.Else.(*ast.IfStmt)
-	expOK := ok && f.Str(second.Cond) == "t.IsExpirationTimeChanged()" && second.Else == nil &&
-		f.Str(second.Body) == "{ s.deleteTreasureIfBeaconInitialized(s.expirationTimeBeaconASC, t.GetKey()) s.deleteTreasureIfBeaconInitialized(s.expirationTimeBeaconDESC, t.GetKey()) if t.GetExpirationTime() != 0 { s.addToExpirationTimeBeacon(t) } }"
+	const expDrop = "{ s.deleteTreasureIfBeaconInitialized(s.expirationTimeBeaconASC, t.GetKey()) s.deleteTreasureIfBeaconInitialized(s.expirationTimeBeaconDESC, t.GetKey()) "
+	expGuarded := ok && f.Str(second.Cond) == "t.IsExpirationTimeChanged()" && second.Else == nil &&
+		f.Str(second.Body) == expDrop+"if t.GetExpirationTime() != 0 { s.addToExpirationTimeBeacon(t) } }"
+	expBare := ok && f.Str(second.Cond) == "t.IsExpirationTimeChanged()" && second.Else == nil &&
+		f.Str(second.Body) == expDrop+"s.addToExpirationTimeBeacon(t) }"
+	expOK := expGuarded || expBare
+	guardFact := Unknown
+	if expGuarded || first.Else == nil {
+		guardFact = Yes // (no expiration branch at all: nothing is re-added)
+	} else if expBare {
+		guardFact = No
+	}
 	expFact := TriOf(expOK)
 	if first.Else != nil && !expOK {
 		expFact = Unknown // an else-branch of another shape: only this fact is lost
@@ -486,6 +498,7 @@ func c07Save(fs *Facts, f *File) {
 		return
 	}
 	fs.Tri("updRefreshExpireOnFlag", expFact, where)
+	fs.Tri("refileGuardExpire", guardFact, where)
 	fs.Tri("updRefreshCreated", crt, where)
 	fs.Tri("updRefreshUpdated", upd, where)
 	fs.Tri("updRefreshValue", val, where)
